@@ -25,12 +25,13 @@ VARIABLES table,     \* id -> handle registered for it (0 = none)
           hst,       \* handle -> "open" | "closed"
           inbox,     \* handle -> frames queued for reading
           sent,      \* frames sent so far (payloads are 1..sent)
-          mclosed    \* the multiplexer is closed
+          mclosed,   \* the multiplexer is closed
+          blocked    \* created WithBlockedRead() and not yet unblocked: the reader has not started
 
-tvarsM == <<table, nh, hid, hst, inbox, sent, mclosed>>
+tvarsM == <<table, nh, hid, hst, inbox, sent, mclosed, blocked>>
 
 TInit == /\ table = [i \in Ids |-> 0] /\ nh = 0 /\ hid = <<>> /\ hst = <<>> /\ inbox = <<>>
-         /\ sent = 0 /\ mclosed = FALSE
+         /\ sent = 0 /\ mclosed = FALSE /\ blocked \in BOOLEAN
 
 Handles == 1..nh
 
@@ -42,22 +43,25 @@ Open(id) ==
      ELSE /\ nh < MaxH /\ nh' = nh + 1
           /\ table' = [table EXCEPT ![id] = nh + 1]
           /\ hid' = Append(hid, id) /\ hst' = Append(hst, "open") /\ inbox' = Append(inbox, <<>>)
-  /\ UNCHANGED <<sent, mclosed>>
+  /\ UNCHANGED <<sent, mclosed, blocked>>
 
 \* conn.Close() on handle h (any number of times)
 CloseH(h) ==
   /\ h \in Handles
   /\ hst' = [hst EXCEPT ![h] = "closed"]
   /\ table' = IF table[hid[h]] = h \/ ~Guarded THEN [table EXCEPT ![hid[h]] = 0] ELSE table
-  /\ UNCHANGED <<nh, hid, inbox, sent, mclosed>>
+  /\ UNCHANGED <<nh, hid, inbox, sent, mclosed, blocked>>
+
+\* Unblock(): the reader starts (once; later calls do nothing)
+Unblock == blocked /\ blocked' = FALSE /\ UNCHANGED <<table, nh, hid, hst, inbox, sent, mclosed>>
 
 \* the other end sends a frame for id; the reader routes it
 Routed(id) == table[id] # 0
 Send(id) ==
-  /\ ~mclosed /\ sent < MaxSent
+  /\ ~mclosed /\ ~blocked /\ sent < MaxSent     \* (what arrives before the reader starts waits in the trunk: not modelled)
   /\ sent' = sent + 1
   /\ inbox' = IF Routed(id) THEN [inbox EXCEPT ![table[id]] = Append(@, sent + 1)] ELSE inbox
-  /\ UNCHANGED <<table, nh, hid, hst, mclosed>>
+  /\ UNCHANGED <<table, nh, hid, hst, mclosed, blocked>>
 
 \* Read on handle h returns: queued data (open handle), an error (closed handle or closed multiplexer;
 \* a closed handle with queued data may return either), or blocks (open, nothing queued: not a step)
@@ -65,20 +69,20 @@ CanRead(h) == h \in Handles /\ (inbox[h] # <<>> \/ hst[h] = "closed")
 ReadData(h) ==
   /\ h \in Handles /\ inbox[h] # <<>>
   /\ inbox' = [inbox EXCEPT ![h] = Tail(@)]
-  /\ UNCHANGED <<table, nh, hid, hst, sent, mclosed>>
+  /\ UNCHANGED <<table, nh, hid, hst, sent, mclosed, blocked>>
 ReadErr(h) ==
   /\ h \in Handles /\ hst[h] = "closed"
   /\ UNCHANGED tvarsM
 
-\* mux.Close(): every registered connection is closed
+\* mux.Close(): every registered connection is closed - whether or not the reader was ever started
 MClose ==
   /\ ~mclosed /\ mclosed' = TRUE
   /\ hst' = [h \in Handles |-> IF table[hid[h]] = h THEN "closed" ELSE hst[h]]
-  /\ UNCHANGED <<table, nh, hid, inbox, sent>>
+  /\ UNCHANGED <<table, nh, hid, inbox, sent, blocked>>
 
 TNext == \/ \E i \in Ids : Open(i) \/ Send(i)
          \/ \E h \in Handles : CloseH(h) \/ ReadData(h) \/ ReadErr(h)
-         \/ MClose
+         \/ MClose \/ Unblock
 TSpecM == TInit /\ [][TNext]_tvarsM
 
 \* ------------------------------------------------------------- properties --
